@@ -80,9 +80,10 @@ HostDenote(h) ==
 SameHost(a, b) == HostDenote(a) = HostDenote(b)
 
 \* The statement quantifies over names, IPv4 and IPv6 literals (incl. compressed
-\* forms); a zone identifier (fe80::1%eth0) is not mentioned: such hosts are
-\* out of scope -- a broken clause is reported as "unspecified:<label>".
-HostInScope(h) == ~Has(h, PERCENT)
+\* forms) "as the discovery scanners emit them": discover doip over IPv6 link-local
+\* reports scoped literals (fe80::1%eth0), so a zone identifier is part of the host.
+\* (An earlier version of this contract left such hosts out of scope; seed-c20-5.)
+HostInScope(h) == TRUE
 Scoped(h, v) == IF v = "ok" \/ HostInScope(h) THEN v ELSE "unspecified:zone-id"
 
 ----------------------------------------------------------------------------
